@@ -63,7 +63,8 @@ def bucket_observe(s):
         wn = w.network.WaterNetworkModel()
         wn.add_pattern("pin", [float(e["fin"]) for e in s["env"]])
         wn.add_pattern("pout", [float(e["dout"]) for e in s["env"]])
-        wn.add_tank("T", elevation=0.0, init_level=s["init"] * LU, min_level=0.0, max_level=30.0, diameter=DIAM)
+        late_diam = s["id"] % 4 == 1     # the tank is created wider; its diameter is assigned after the controls exist
+        wn.add_tank("T", elevation=0.0, init_level=s["init"] * LU, min_level=0.0, max_level=30.0, diameter=DIAM * (1.5 if late_diam else 1.0))
         wn.add_junction("JD", base_demand=FU, demand_pattern="pout", elevation=0.0)
         wn.add_junction("JS", base_demand=-FU, demand_pattern="pin", elevation=0.0)
         wn.add_pipe("PD", "T", "JD", length=10.0, diameter=0.6, roughness=130)
@@ -74,7 +75,16 @@ def bucket_observe(s):
         t.duration = s["steps"] * s["H"]
         for i, c in enumerate(s["ctl"]):
             act = C.ControlAction(wn.get_link("L"), "status", w.network.LinkStatus.Open if c["val"] else w.network.LinkStatus.Closed)
-            wn.add_control("c%d" % i, C.Control(C.ValueCondition(wn.get_node("T"), "level", c["rel"], c["thr"] * LU), act, priority=c["prio"]))
+            cnd = C.ValueCondition(wn.get_node("T"), "level", c["rel"], c["thr"] * LU)
+            if s["id"] % 4 == 3:
+                # the control is created on another condition and gets the tank-level condition through update_condition
+                ctl = C.Control(C.ValueCondition(wn.get_node("JD"), "pressure", "<", -1000.0), act, priority=c["prio"])
+                ctl.update_condition(cnd)
+            else:
+                ctl = C.Control(cnd, act, priority=c["prio"])
+            wn.add_control("c%d" % i, ctl)
+        if late_diam:
+            wn.get_node("T").diameter = DIAM
         import simnet
         res, _ = simnet.run_wntr(w, wn)
         if res.error_code is not None:
@@ -174,6 +184,7 @@ def main(tier, replay):
             s = netgen.gen(rnd, i + 1, tank_bias=True, features={"tanks", "pumps", "valves", "patterns", "parallel", "cv", "minor",
                                                                   "level_controls", "vcurve"})
             if s["cctl"]:
+                s["late_diam"] = (i % 4 == 1)       # tank diameters assigned after the controls were created
                 scns.append(s)
         scns += [isolation_scenario(rnd, 8000 + i) for i in range(30 if tier == "quick" else 600)]
     good = hyd.validate(ck, "C05", scns, props)
